@@ -3,6 +3,7 @@ CONSTANTS
   Inputs <- ShippedInputs
   GenEdits <- NoGenEdits
   Shipped = {"dims"}
+  TsrValues = {TRUE}
   GenSteps = 0
   Quick = TRUE
   PumpK = 3
